@@ -361,6 +361,210 @@ pub fn judge(c: &Case16) -> Vec<(String, String)> {
     }
 }
 
+/// Minimal self-describing value for the generic decode (serde_json::Value cannot hold byte strings).
+#[derive(Debug, Clone)]
+pub enum Any {
+    Null,
+    Bool(bool),
+    I(i64),
+    U(u64),
+    F(f64),
+    S(String),
+    B(Vec<u8>),
+    Seq(Vec<Any>),
+    Map(Vec<(Any, Any)>),
+}
+
+impl<'de> serde::Deserialize<'de> for Any {
+    fn deserialize<D: serde::Deserializer<'de>>(d: D) -> Result<Any, D::Error> {
+        struct V;
+        impl<'de> serde::de::Visitor<'de> for V {
+            type Value = Any;
+            fn expecting(&self, f: &mut std::fmt::Formatter) -> std::fmt::Result {
+                f.write_str("any msgpack value")
+            }
+            fn visit_bool<E>(self, v: bool) -> Result<Any, E> { Ok(Any::Bool(v)) }
+            fn visit_i64<E>(self, v: i64) -> Result<Any, E> { Ok(Any::I(v)) }
+            fn visit_u64<E>(self, v: u64) -> Result<Any, E> { Ok(Any::U(v)) }
+            fn visit_f32<E>(self, v: f32) -> Result<Any, E> { Ok(Any::F(v as f64)) }
+            fn visit_f64<E>(self, v: f64) -> Result<Any, E> { Ok(Any::F(v)) }
+            fn visit_str<E>(self, v: &str) -> Result<Any, E> { Ok(Any::S(v.to_owned())) }
+            fn visit_string<E>(self, v: String) -> Result<Any, E> { Ok(Any::S(v)) }
+            fn visit_bytes<E>(self, v: &[u8]) -> Result<Any, E> { Ok(Any::B(v.to_vec())) }
+            fn visit_byte_buf<E>(self, v: Vec<u8>) -> Result<Any, E> { Ok(Any::B(v)) }
+            fn visit_unit<E>(self) -> Result<Any, E> { Ok(Any::Null) }
+            fn visit_none<E>(self) -> Result<Any, E> { Ok(Any::Null) }
+            fn visit_some<D2: serde::Deserializer<'de>>(self, d: D2) -> Result<Any, D2::Error> { Any::deserialize(d) }
+            fn visit_newtype_struct<D2: serde::Deserializer<'de>>(self, d: D2) -> Result<Any, D2::Error> { Any::deserialize(d) }
+            fn visit_seq<A: serde::de::SeqAccess<'de>>(self, mut a: A) -> Result<Any, A::Error> {
+                let mut v = Vec::new();
+                while let Some(x) = a.next_element::<Any>()? {
+                    v.push(x);
+                }
+                Ok(Any::Seq(v))
+            }
+            fn visit_map<A: serde::de::MapAccess<'de>>(self, mut a: A) -> Result<Any, A::Error> {
+                let mut v = Vec::new();
+                while let Some((k, x)) = a.next_entry::<Any, Any>()? {
+                    v.push((k, x));
+                }
+                Ok(Any::Map(v))
+            }
+        }
+        d.deserialize_any(V)
+    }
+}
+
+impl Any {
+    pub fn get(&self, key: &str) -> Option<&Any> {
+        match self {
+            Any::Map(m) => m.iter().find(|(k, _)| matches!(k, Any::S(s) if s == key)).map(|(_, v)| v),
+            _ => None,
+        }
+    }
+    pub fn map(&self) -> Option<Vec<(String, &Any)>> {
+        match self {
+            Any::Map(m) => Some(m.iter().filter_map(|(k, v)| if let Any::S(s) = k { Some((s.clone(), v)) } else { None }).collect()),
+            _ => None,
+        }
+    }
+    pub fn len(&self) -> Option<usize> {
+        match self {
+            Any::Map(m) => Some(m.len()),
+            Any::Seq(v) => Some(v.len()),
+            _ => None,
+        }
+    }
+    pub fn as_str(&self) -> Option<&str> {
+        if let Any::S(s) = self { Some(s) } else { None }
+    }
+    pub fn as_u64(&self) -> Option<u64> {
+        match self {
+            Any::U(u) => Some(*u),
+            Any::I(i) if *i >= 0 => Some(*i as u64),
+            _ => None,
+        }
+    }
+}
+
+/// The bundled database.msgpack decoded generically (no rbx_reflection types involved) and
+/// compared with what `rbx_reflection_database::get()` hands out: a loader that silently drops
+/// or renames entries of some shape would otherwise leave every coherence check green.
+pub fn raw_vs_loaded() -> (Vec<(String, String)>, Value) {
+    let mut out = Vec::new();
+    let path = "/repo/rbx_reflection_database/database.msgpack";
+    let bytes = match std::fs::read(path) {
+        Ok(b) => b,
+        Err(e) => crate::evidence::machinery_failure(&format!("cannot read {}: {}", path, e)),
+    };
+    let raw: Any = match rmp_serde::from_slice(&bytes) {
+        Ok(v) => v,
+        Err(e) => crate::evidence::machinery_failure(&format!("generic msgpack decode of the database failed: {}", e)),
+    };
+    let d = db();
+    // structs are stored either as maps (field names) or, as rmp-serde's compact form does, as
+    // arrays in declaration order: ReflectionDatabase [version, classes, enums], ClassDescriptor
+    // [name, tags, superclass, properties, default_properties], EnumDescriptor [name, items]
+    let position = |name: &str| -> usize {
+        match name {
+            "Classes" | "Tags" | "Items" => 1,
+            "Enums" | "Superclass" => 2,
+            "Properties" => 3,
+            "DefaultProperties" => 4,
+            _ => usize::MAX,
+        }
+    };
+    let field = |v: &Any, names: &[&str]| -> Option<Any> {
+        for n in names {
+            if let Some(x) = v.get(n) {
+                return Some(x.clone());
+            }
+        }
+        if let Any::Seq(items) = v {
+            return items.get(position(names[0])).cloned();
+        }
+        None
+    };
+    let classes = field(&raw, &["Classes", "classes"]).unwrap_or(Any::Null);
+    let enums = field(&raw, &["Enums", "enums"]).unwrap_or(Any::Null);
+    let (mut n_props, mut n_defaults, mut n_items) = (0usize, 0usize, 0usize);
+    match classes.map() {
+        None => out.push(("db|raw|shape".into(), "the raw database has no Classes map".into())),
+        Some(m) => {
+            if m.len() != d.classes.len() {
+                out.push(("db|raw|class-count".into(), format!("database.msgpack holds {} classes, get() exposes {}", m.len(), d.classes.len())));
+            }
+            for (cname, c) in m {
+                let loaded = match d.classes.get(cname.as_str()) {
+                    Some(l) => l,
+                    None => {
+                        out.push(("db|raw|class-missing".into(), format!("class {} is in database.msgpack but not in get()", cname)));
+                        continue;
+                    }
+                };
+                let sup = field(c, &["Superclass", "superclass"]);
+                let sup_s = sup.as_ref().and_then(|x| x.as_str()).map(|x| x.to_owned());
+                if sup_s != loaded.superclass.as_ref().map(|s| s.to_string()) {
+                    out.push(("db|raw|superclass".into(), format!("class {}: superclass {:?} in the file, {:?} loaded", cname, sup_s, loaded.superclass)));
+                }
+                if let Some(pm) = field(c, &["Properties", "properties"]).and_then(|p| p.map().map(|m| m.into_iter().map(|(k, _)| k).collect::<Vec<_>>())) {
+                    n_props += pm.len();
+                    for pname in &pm {
+                        if !loaded.properties.contains_key(pname.as_str()) {
+                            out.push(("db|raw|property-missing".into(), format!("{}.{} is in database.msgpack but not loaded", cname, pname)));
+                        }
+                    }
+                    if pm.len() != loaded.properties.len() {
+                        out.push(("db|raw|property-count".into(), format!("class {}: {} properties in the file, {} loaded", cname, pm.len(), loaded.properties.len())));
+                    }
+                }
+                if let Some(dm) = field(c, &["DefaultProperties", "default_properties"]).and_then(|p| p.map().map(|m| m.into_iter().map(|(k, _)| k).collect::<Vec<_>>())) {
+                    n_defaults += dm.len();
+                    if dm.len() != loaded.default_properties.len() {
+                        out.push(("db|raw|default-count".into(), format!("class {}: {} defaults in the file, {} loaded", cname, dm.len(), loaded.default_properties.len())));
+                    }
+                    for k in &dm {
+                        if !loaded.default_properties.contains_key(k.as_str()) {
+                            out.push(("db|raw|default-missing".into(), format!("default {}.{} is in database.msgpack but not loaded", cname, k)));
+                        }
+                    }
+                }
+                if let Some(t) = field(c, &["Tags", "tags"]).and_then(|t| t.len()) {
+                    if t != loaded.tags.len() {
+                        out.push(("db|raw|class-tags".into(), format!("class {}: {} tags in the file, {} loaded", cname, t, loaded.tags.len())));
+                    }
+                }
+            }
+        }
+    }
+    match enums.map() {
+        None => out.push(("db|raw|shape".into(), "the raw database has no Enums map".into())),
+        Some(m) => {
+            if m.len() != d.enums.len() {
+                out.push(("db|raw|enum-count".into(), format!("database.msgpack holds {} enums, get() exposes {}", m.len(), d.enums.len())));
+            }
+            for (ename, e) in m {
+                if let (Some(items), Some(le)) = (field(e, &["Items", "items"]), d.enums.get(ename.as_str())) {
+                    if let Some(im) = items.map() {
+                        n_items += im.len();
+                        if im.len() != le.items.len() {
+                            out.push(("db|raw|enum-items".into(), format!("enum {}: {} items in the file, {} loaded", ename, im.len(), le.items.len())));
+                        }
+                        for (iname, iv) in im {
+                            if le.items.get(iname.as_str()).map(|x| *x as u64) != iv.as_u64() {
+                                out.push(("db|raw|enum-item-value".into(), format!("enum {}.{}: {:?} in the file, {:?} loaded", ename, iname, iv, le.items.get(iname.as_str()))));
+                            }
+                        }
+                    }
+                }
+            }
+        }
+    }
+    out.sort();
+    out.dedup_by(|a, b| a.0 == b.0);
+    (out, json!({"raw_classes": classes.len(), "raw_property_descriptors": n_props, "raw_default_values": n_defaults, "raw_enums": enums.len(), "raw_enum_items": n_items}))
+}
+
 pub fn cases() -> (Vec<Case16>, Value) {
     let d = db();
     let mut classes: Vec<String> = d.classes.keys().map(|k| k.to_string()).collect();
@@ -413,9 +617,17 @@ pub fn check(run: &Run) -> Value {
             out.samples.push(serde_json::to_string(c).unwrap());
         }
     });
+    let mut total = total;
+    let (raw_problems, raw_counts) = raw_vs_loaded();
+    total.cases += 1;
+    total.executions += 1;
+    for (k, w) in raw_problems {
+        total.violation(k, w, || json!({"raw_vs_loaded": true}));
+    }
     total.report(run);
-    println!("C16 walk: {} cases; database {}", total.cases, counts);
+    println!("C16 walk: {} cases; database {}; raw file {}", total.cases, counts, raw_counts);
     json!({
+        "database_file_decoded_generically": raw_counts,
         "states": total.cases,
         "transitions": total.executions,
         "traces_validated_against_impl": total.executions,
@@ -430,6 +642,9 @@ pub fn check(run: &Run) -> Value {
 }
 
 pub fn replay(case: &Value) -> Vec<(String, String)> {
+    if case.get("raw_vs_loaded").is_some() {
+        return raw_vs_loaded().0;
+    }
     let c: Case16 = serde_json::from_value(case.clone()).unwrap_or_else(|e| crate::evidence::machinery_failure(&format!("bad replay: {}", e)));
     let a = judge(&c);
     let b = judge(&c);
